@@ -557,11 +557,10 @@ Section Reuse.
   Proof. left. destruct rv, rr; reflexivity. Qed.
 
 
-  (* the analysis, run on the concrete tables: every observable field except the three leaking ones ends
-     up in the agreement set *)
+  (* the analysis, run on the concrete tables: every observable field ends up in the agreement set *)
   Lemma flowB_covers en : exists B,
     flow setExecuteConfig_steps (rev (map fst (prologue_binds en)) ++ rev (map fst resetCore_binds) ++ A0) = Some B /\
-    incl (obs_fields_partial en) B.
+    incl (obs_fields en) B.
   Proof.
     destruct en as [|ck cv dv]; apply flow_covers_b; vm_compute; reflexivity.
   Qed.
@@ -570,11 +569,11 @@ Section Reuse.
      ResetRand (rr), then Execute/ExecuteContext (en) with any Config c.  Compared with: the same call on a
      NEW interpreter into which the variables (if not rv) and the random state (if not rr) of g were copied.
      Then setExecuteConfig gives the same verdict on both, and if it accepts, the two interpreters enter
-     executeAll agreeing on every observable field except fieldNames, fieldIndexes, reparseCSV. *)
+     executeAll agreeing on every observable field (everything but caches and scratch). *)
   Theorem reuse_vs_new : forall rv rr g en c, reachable g -> c_funcs c = F ->
     let r := m_prepare sv e en c (reused rv rr g) in
     let f := m_prepare sv e en c (carry rv rr g fresh) in
-    snd r = snd f /\ (snd r = None -> agree (obs_fields_partial en) (fst r) (fst f)).
+    snd r = snd f /\ (snd r = None -> agree (obs_fields en) (fst r) (fst f)).
   Proof.
     intros rv rr g en c Hr HF r f.
     destruct (flowB_covers en) as [B [HB Hincl]].
@@ -635,7 +634,7 @@ Definition reuse_statement (L : entry -> list field) : Prop :=
 (* the full statement of the design: all observable fields *)
 Definition reuse_eq_fresh_full : Prop := reuse_statement obs_fields.
 
-Theorem reuse_eq_fresh_partial : reuse_statement obs_fields_partial.
+Theorem reuse_eq_fresh : reuse_eq_fresh_full.
 Proof.
   intros sv e pc F I run [H1 [H2 [H3 [H4 [H5 [H6 H7]]]]]] rv rr g en c Hr HF.
   exact (reuse_vs_new sv e pc F I run H1 H2 H3 H4 H5 H6 H7 rv rr g en c Hr HF).
@@ -657,10 +656,10 @@ Corollary reuse_eq_fresh_after_resets :
   forall g en c, reachable sv e pc F I run g -> c_funcs c = F ->
     let r := m_prepare sv e en c (m_resetVars (m_resetRand e g)) in
     let f := m_prepare sv e en c (m_newInterp e pc) in
-    snd r = snd f /\ (snd r = None -> agree (obs_fields_partial en) (fst r) (fst f)).
+    snd r = snd f /\ (snd r = None -> agree (obs_fields en) (fst r) (fst f)).
 Proof.
   intros sv e pc F I run Hh g en c Hr HF.
-  pose proof (reuse_eq_fresh_partial sv e pc F I run Hh true true g en c Hr HF) as H.
+  pose proof (reuse_eq_fresh sv e pc F I run Hh true true g en c Hr HF) as H.
   rewrite carry_full in H. exact H.
 Qed.
 
@@ -669,17 +668,17 @@ Qed.
 Corollary same_outcome :
   forall sv e pc F I run, hyps sv I run ->
   forall (O : Type) (outcome : state -> O) rv rr g en c,
-    (forall s1 s2, agree (obs_fields_partial en) s1 s2 -> outcome s1 = outcome s2) ->
+    (forall s1 s2, agree (obs_fields en) s1 s2 -> outcome s1 = outcome s2) ->
     reachable sv e pc F I run g -> c_funcs c = F ->
     snd (m_prepare sv e en c (reused e rv rr g)) = None ->
     outcome (fst (m_prepare sv e en c (reused e rv rr g))) =
     outcome (fst (m_prepare sv e en c (carry rv rr g (fresh e pc)))).
 Proof.
   intros sv e pc F I run Hh O outcome rv rr g en c Hout Hr HF Hn.
-  apply Hout. apply (reuse_eq_fresh_partial sv e pc F I run Hh rv rr g en c Hr HF). exact Hn.
+  apply Hout. apply (reuse_eq_fresh sv e pc F I run Hh rv rr g en c Hr HF). exact Hn.
 Qed.
 
-(* ---------- the full statement is false for the pinned tree ---------- *)
+(* ---------- non-vacuity: a concrete instance of the hypotheses ---------- *)
 Definition sv_id : setvars := fun _ s => (s, None).
 (* a run that reads a CSV header and ends with a record assignment outside the main loop *)
 Definition run_header (_ : unit) (s : state) : state :=
@@ -702,31 +701,12 @@ Proof.
   - intros i s h Hh. unfold run_header. rewrite !upd_neq by discriminate. exact Hh.
 Qed.
 
-Theorem reuse_eq_fresh_refuted : ~ reuse_eq_fresh_full.
-Proof.
-  intros H.
-  set (g := run_header tt (fst (m_prepare sv_id env0 EExec config0 (fresh env0 pc0)))).
-  assert (Hr : reachable sv_id env0 pc0 (VL []) unit run_header g).
-  { unfold g. apply R_execute; [apply R_new | reflexivity]. }
-  destruct (H sv_id env0 pc0 (VL []) unit run_header hyps_example true true g EExec config0 Hr eq_refl) as [_ Ha].
-  assert (Hn : snd (m_prepare sv_id env0 EExec config0 (reused env0 true true g)) = None) by (vm_compute; reflexivity).
-  specialize (Ha Hn "fieldNames").
-  assert (Hin : In "fieldNames" (obs_fields EExec)) by (apply mem_In; vm_compute; reflexivity).
-  specialize (Ha Hin). vm_compute in Ha. discriminate Ha.
-Qed.
-
-(* the same with the second defect alone: reparseCSV *)
-Theorem reuse_eq_fresh_refuted_reparseCSV :
-  ~ reuse_statement (fun en => filter (fun f => negb (mem f ["fieldNames"; "fieldIndexes"])) (obs_fields en)).
-Proof.
-  intros H.
-  set (g := run_header tt (fst (m_prepare sv_id env0 EExec config0 (fresh env0 pc0)))).
-  assert (Hr : reachable sv_id env0 pc0 (VL []) unit run_header g).
-  { unfold g. apply R_execute; [apply R_new | reflexivity]. }
-  destruct (H sv_id env0 pc0 (VL []) unit run_header hyps_example true true g EExec config0 Hr eq_refl) as [_ Ha].
-  assert (Hn : snd (m_prepare sv_id env0 EExec config0 (reused env0 true true g)) = None) by (vm_compute; reflexivity).
-  specialize (Ha Hn "reparseCSV").
-  assert (Hin : In "reparseCSV" (filter (fun f => negb (mem f ["fieldNames"; "fieldIndexes"])) (obs_fields EExec)))
-    by (apply mem_In; vm_compute; reflexivity).
-  specialize (Ha Hin). vm_compute in Ha. discriminate Ha.
-Qed.
+(* the history that used to refute the statement (F-C14-1, F-C14-2, repaired): after a run that read a CSV
+   header and left reparseCSV set, the reused interpreter prepared for its next run has neither *)
+Lemma header_run_is_reset :
+  let g := run_header tt (fst (m_prepare sv_id env0 EExec config0 (fresh env0 pc0))) in
+  g "fieldNames" = VL [VS [97]; VS [98]] /\ g "reparseCSV" = VB true /\
+  fst (m_prepare sv_id env0 EExec config0 g) "fieldNames" = VNil /\
+  fst (m_prepare sv_id env0 EExec config0 g) "reparseCSV" = VB false /\
+  predict_diff sv_id env0 pc0 EExec config0 false false g = PDiff [].
+Proof. vm_compute. repeat split; reflexivity. Qed.
